@@ -49,7 +49,12 @@ fn data_fp<const M: usize>(cones: &[SupportedConeT<F>], st: &DefaultSettings<F>)
     fill_any(&mut q);
     let mut b = vec![F::zero(); M];
     fill_any(&mut b);
-    DefaultProblemData::<F>::new(&P, &q, &A, &b, cones, st)
+    let mut data = DefaultProblemData::<F>::new(&P, &q, &A, &b, cones, st);
+    // the constructor caps b at the infinity bound with T::min(b, 1e20): an order comparison that means nothing
+    // in a field (and 1e20 maps to the field's 0, so every b would become 0 and the assertions about b vacuous -
+    // which is how the seeded change C05c first slipped through); b is written back after construction
+    data.b.copy_from_slice(&b);
+    data
 }
 
 fn exact_fp<const M: usize>(cones_t: &[SupportedConeT<F>], cones: &CompositeCone<F>, sweeps: u32, nonscalar: std::ops::Range<usize>) {
@@ -98,6 +103,7 @@ fn exact_fp<const M: usize>(cones_t: &[SupportedConeT<F>], cones: &CompositeCone
     }
     assert!(same_pattern(&data.P, &P0) && same_pattern(&data.A, &A0), "patterns_unchanged");
     kani::cover!(d[0].0 > 1 && e[M - 1].0 > 1 && c.0 > 1, "nontrivial factors");
+    kani::cover!(b0[M - 1].0 > 1 && e[M - 1].0 > 1, "nonzero right-hand side with a nontrivial row factor");
 }
 
 macro_rules! exact_harness {
